@@ -229,7 +229,7 @@ def setup(leg, params):
     # first-use self-test of the analysis must not happen inside a run
     _ll._check_trickery_available()
     _ll.inspect_frame(sys._getframe())
-    if sys.version_info >= (3, 11) and params.get("mode") == "racing":
+    if sys.version_info >= (3, 11) and params.get("mode") in ("racing", "blocked"):
         from stackscope import _lowlevel_cpython_311 as impl
 
         if not isinstance(impl.ctypes, SlotGuard):
@@ -281,6 +281,41 @@ def run_blocked(ctx):
     tgs = [threads.Target(ctx, "T%d" % i) for i in range(n)]
     ctx.case["programs"] = [tg.program for tg in tgs]
     ctx.case.pop("program", None)
+    # 3.11+: every slot / header read of inspect_frame is judged here as well (a blocked thread:
+    # whatever the frame is parked in, no read may go beyond what it owns at that position)
+    guard = GUARD if sys.version_info >= (3, 11) else None
+    restore = None
+    if guard is not None:
+        from stackscope import _lowlevel, lowlevel
+        from stackscope import _lowlevel_cpython_311 as impl
+
+        _lowlevel.inspect_frame(sys._getframe())
+        real_inspect = impl.inspect_frame
+        guard.stale = []
+
+        def watched_inspect(frame):
+            f = sys._getframe(1)
+            while f is not None:
+                if f is frame:
+                    return real_inspect(frame)
+                f = f.f_back
+            prev = guard.frame
+            guard.frame = frame
+            try:
+                return real_inspect(frame)
+            finally:
+                guard.frame = prev
+
+        _lowlevel.inspect_frame = watched_inspect
+        lowlevel.inspect_frame = watched_inspect
+
+        def restore():
+            _lowlevel.inspect_frame = real_inspect
+            lowlevel.inspect_frame = real_inspect
+            guard.frame = None
+            ctx.stat("casts_checked", guard.checked)
+            guard.checked = 0
+
     try:
         # not started yet: no frames, no error
         for tg in tgs:
@@ -308,6 +343,14 @@ def run_blocked(ctx):
                     if st.frames or st.error is not None:
                         raise Violation("c07_finished_thread", "extract(finished thread) -> frames %r error %r" % (st.frames, st.error), {})
                 else:
+                    if guard is not None and guard.stale:
+                        nst = len(guard.stale)
+                        guard.stale = []
+                        raise Violation(
+                            "c07_stale_pointer_dereferenced",
+                            "extract(blocked thread %s): inspect_frame made %d read(s) beyond what the frame owns at the position it is parked in" % (other.name, nst),
+                            {"thread": other.name},
+                        )
                     compare_blocked(ctx, other, st)
                     ctx.log("B", other.name, len(st.frames))
         ctx.case["schedule"] = sched
@@ -341,6 +384,8 @@ def run_blocked(ctx):
                 st = stackscope.extract(reused.thread)
                 compare_blocked(ctx, reused, st)
     finally:
+        if restore is not None:
+            restore()
         for tg in tgs:
             tg.finish()
     ctx.sample = {"programs": [tg.program for tg in tgs][:1], "schedule": ctx.case.get("schedule")}
